@@ -57,5 +57,7 @@ def run(ctx):
         "'within half a unit of the last digit the format prints': |y - x| <= ulp10(fmt % x)/2 + 2 float64 ulps, in Decimal arithmetic (projection)",
         "len_numeric_field, when given, exceeds every formatted width (documented requirement); no finite sample equals, or prints as, the NULL marker",
         "spacers are whitespace; STRT/STOP/STEP are left to lasio; curves are float; the index is finite",
+        "numeric formats round to the digits they print (%f, %e, %g forms); '%d' truncates and is outside the statement's tolerance by "
+        "Python's own semantics; wrap is a bool",
     ]
     return ctx.finish(RULE)
